@@ -752,7 +752,7 @@ def readers(ctx, vs, M, hp_word, sdp_word, last, crc, PW, PM, C, cands):
            acc[0].loc, 'DataPacketReceiver must accept the payload start word the transmitter sends (data %#010x)' % sdp_word)
     good = q.raises(rir, 'self.packet_good')
     ctx.need(len(good) == 1, 'packet_good site')
-    cmpl = [l.e for l in good[0].guard if l.pos and isinstance(l.e, E) and l.e.op == '==' and
+    cmpl = [l.e for l in q.raise_lits(good[0]) if l.pos and isinstance(l.e, E) and l.e.op == '==' and
             any(x.canon() == 'crc32.crc' or x.canon().endswith('.crc') for x in l.e.args)]
     ctx.need(len(cmpl) == 1, 'CRC32 comparison of DataPacketReceiver')
     chk = [x for x in cmpl[0].args if not x.canon().endswith('.crc')]
